@@ -46,7 +46,7 @@ PROPERTIES = {
         "title": "operations complete, no lock left held",
         "jobs": [{"bin": "h_tree", "args": ["locks", "--oracle", "lock"], "shards": 16},
                  {"bin": "h_tree", "args": ["struct", "--oracle", "lock"], "shards": 4}],
-        "accept": r"lock:|deadlock|livelock",
+        "accept": r"lock:|deadlock|livelock|crash",
         "deadline": {"quick": 240, "thorough": 1500},
         "rule": E1_RULE + "; a deadlock is reported when no thread is enabled and 8 forced retry rounds of every stuck thread "
                 "complete no write; a livelock when one execution exceeds the point horizon",
@@ -75,7 +75,7 @@ PROPERTIES = {
     "C03": {
         "title": "range scan returns exactly the interval",
         "jobs": [{"bin": "e_scan", "args": ["scan"], "shards": 16}],
-        "accept": r"scan:",
+        "accept": r"scan:|crash",
         "deadline": {"quick": 120, "thorough": 600},
         "rule": "exhaustive product: 1024 subset trees of a 10-key universe (1-3 layers) + 16 multi-node seeds x all (l_key, l_end, r_key, r_end) "
                 "over endpoints derived from the stored keys (k, k minus last byte, k+NUL, last byte +-1, cut at 8/16, empty, 0xFF x9, "
@@ -84,13 +84,16 @@ PROPERTIES = {
     },
     "C05": {
         "title": "node-version sets detect later inserts",
-        "jobs": [{"bin": "e_nvset", "args": [], "shards": 16}, {"bin": "e_scan", "args": ["iscan"], "shards": 16}, {"bin": "e_scan", "args": ["scan"], "shards": 16}],
-        "accept": r"nvset",
+        "jobs": [{"bin": "e_nvset", "args": [], "shards": 16}, {"bin": "e_scan", "args": ["iscan"], "shards": 16}, {"bin": "e_scan", "args": ["scan"], "shards": 16},
+                 {"bin": "h_tree", "args": ["phantom", "--oracle", "phantom", "--only", ";put("], "shards": 8}],
+        "accept": r"nvset|phantom:|crash",
         "deadline": {"quick": 120, "thorough": 600},
         "rule": "exhaustive product (tree, read, absent key of the covered interval), each on a fresh replay: read (scan with every range/max_size/"
                 "direction, get-miss, iscan consumed for 1, 2, 4 or all entries), collect the set, insert, compare every recorded pair; plus "
-                "non-emptiness of the set on the whole C03/C10 argument domain; non-trivial = case whose key lies in the covered interval",
-        "assumptions": ["quiescent tree, one session"],
+                "non-emptiness of the set on the whole C03/C10 argument domain; non-trivial = case whose key lies in the covered interval; "
+                "sets collected under concurrency: every schedule (preemption bound 2) of a narrow scan racing a writer that removes all "
+                "in-range keys and inserts an out-of-range key into the same node, followed by a probe insert of every absent key of the interval",
+        "assumptions": ["product part: quiescent tree, one session"] + SC_ASSUME,
     },
     "C08": {
         "title": "tree stays coherent",
@@ -131,7 +134,7 @@ PROPERTIES = {
     "C12": {
         "title": "put reports exactly the changed border nodes",
         "jobs": [{"bin": "e_misc", "args": ["putinfo"], "shards": 16}],
-        "accept": r"putinfo:",
+        "accept": r"putinfo:|crash",
         "deadline": {"quick": 60, "thorough": 300},
         "rule": "exhaustive product (17 seed shapes x new keys around every stored key, layer-creating keys, both overloads) + overwrite of every key; "
                 "oracle = diff of the version words of all border nodes before/after",
@@ -179,7 +182,7 @@ PROPERTIES = {
     "C18": {
         "title": "key comparisons agree with bytewise order",
         "jobs": [{"bin": "e_misc", "args": ["compare"], "shards": 16}],
-        "accept": r"compare:",
+        "accept": r"compare:|crash",
         "deadline": {"quick": 60, "thorough": 600},
         "rule": "all pairs of the 16402 (slice,length) tuples over {00,01,FF} (quick: stride 37) for the key_tuple operators, all 767^2 pairs over {00,FF} "
                 "for border lookup/rank and interior route/insert on hand-built nodes, rearrange on 3-subsets, split side decision and API order "
@@ -189,7 +192,7 @@ PROPERTIES = {
     "C19": {
         "title": "permutation word encodes a valid ordering",
         "jobs": [{"bin": "e_misc", "args": ["perm"]}, {"bin": "h_proto_s3", "args": ["perm"]}],
-        "accept": r"perm:",
+        "accept": r"perm:|crash",
         "deadline": {"quick": 60, "thorough": 300},
         "rule": "closure of the real permutation under insert_rank(every rank, every free slot)/delete_rank for n <= 5 (thorough 6: 4.0M words), "
                 "rotation families for n = 6..15, split sequence, split_dest; single atomic publication: reader vs writer schedules (all)",
@@ -198,7 +201,7 @@ PROPERTIES = {
     "C20": {
         "title": "mem_usage reports the real shape and footprint",
         "jobs": [{"bin": "s_map", "args": ["all", "--oracle", "mem"], "shards": 16}, {"bin": "e_misc", "args": ["values"], "shards": 8}],
-        "accept": r"mem_usage:",
+        "accept": r"mem_usage:|crash",
         "deadline": {"quick": 120, "thorough": 1300},
         "rule": "every canonical state of the C02 search: independent walk (nodes per depth, node sizes + allocated value sizes from the allocation monitor), used <= reserved",
         "assumptions": ["one session, quiescent"],
